@@ -438,7 +438,7 @@ def clause_cache_only_everywhere(ctx, P, pre="C13l"):
     q = calls_to(g, "Zeroconf::query_unresolved")
     if q:
         edges = guard_edges(P, g, lambda atom, outcome, bb: expr_or_closure_mentions_field(P, atom, marker, "Zeroconf"))
-        ok = bool(edges) and must_pass_edges(g, q[0][0], edges)
+        ok = bool(edges) and guarded(P, g, q[0][0], edges)
         ctx.ob(pre + ".cache-only-no-query", g.name + "|follow-up", ok, g.loc(q[0][0]),
                "the follow-up question is asked only after a test that involves %s" % marker if ok else
                "the follow-up questions of an unresolved instance are sent for a cache-only browse too")
